@@ -565,7 +565,7 @@ func (m c09) Run(c *core.Ctx) {
 		return
 	}
 	idx := 0
-	reps := c.Pick(1, 10)
+	reps := c.Pick(1, 60)
 	for _, wl := range wls {
 		actions := []string{"abort", "abort2", "abort5"}
 		if wl.eval {
@@ -635,7 +635,7 @@ func (m c09) Run(c *core.Ctx) {
 		m.cmdUgo(c)
 	}
 	// stress
-	n := c.Pick(12, 300)
+	n := c.Pick(12, 3000)
 	for i := 0; i < n; i++ {
 		wl := wls[c.Rng.Intn(5)]
 		spin := c.Rng.Intn(400)
